@@ -52,6 +52,11 @@ Full statement / proved / missing
   the index loop of `AddAll`, the `exists` map of `Unique`, the stepping loop of `EachSlice`, `Slice` bounds — answer what
   the sequence specification answers), `C09_arr_immutable` (no array of the pool ever changes); what the specification
   is: `C09_arr_spec_unique`, `C09_arr_spec_chunks`, `C09_arr_spec_slice`, `C09_arr_sort`, `C09_arr_flatten` — proved.
+* audit additions (stranger's review, notes/audit-C09.md): `C09_spec_includes_iff` / `C09_spec_get_isSome_iff` (lookups find exactly
+  the present keys), `C09_spec_keys_deleteAll`, `C09_spec_get_ofList`; `C09_sh_delete_removes`; `C09_arr_spec_unique_first` and
+  `C09_arr_spec_chunks_at` (the two sequence specifications pinned down exactly). Read with care: `C09_sh_views`,
+  `C09_hash_views`, `C09_hash_dup_views` are `rfl`; `C09_arr_immutable` holds by construction of the pool machine (C08 is the
+  property about shared storage); `Hash.Slice` with bad bounds is `badBounds`, not `fault`, in model and specification.
 * missing: value equality itself (`px.ToKey` respects `Equals`: property C07 — here `key` is an abstract
   function into a type with decidable equality); that operations do not share backing storage (C08);
   `Array.Slice` beyond the length but within the capacity (Go allows it; outside the property).
@@ -92,6 +97,44 @@ theorem C09_spec_nodup_ofList (l : List (α × β)) : (keys key (ofList key l)).
   nodup_merge (a := []) (by simp [keys]) l
 
 end spec
+
+/-! ### audit additions (specification): lookups find exactly the present keys; `deleteAll`; what a literal answers -/
+section spec2
+variable {α β κ : Type} [DecidableEq κ] (key : α → κ)
+
+/-- lookups find exactly the present keys -/
+theorem C09_spec_includes_iff (m : List (α × β)) (k : κ) :
+    OMap.includes key m k = true ↔ k ∈ keys key m := by
+  induction m with
+  | nil => simp [OMap.includes, getEntry, keys]
+  | cons e es ih =>
+    by_cases h : key e.1 = k
+    · simp [OMap.includes, getEntry, keys, h]
+    · have : OMap.includes key (e :: es) k = OMap.includes key es k := by simp [OMap.includes, getEntry, h]
+      have h' : k ≠ key e.1 := fun x => h x.symm
+      rw [this, ih]
+      show k ∈ keys key es ↔ k ∈ key e.1 :: keys key es
+      simp [h']
+
+theorem C09_spec_get_isSome_iff (m : List (α × β)) (k : κ) :
+    (OMap.get key m k).isSome = true ↔ k ∈ keys key m := by
+  rw [← C09_spec_includes_iff]; simp [OMap.get, OMap.includes]
+
+/-- `deleteAll` removes exactly the given keys and keeps the order of the others -/
+theorem C09_spec_keys_deleteAll (m : List (α × β)) (ks : List κ) :
+    keys key (deleteAll key m ks) = (keys key m).filter (fun x => !ks.contains x) := keys_deleteAll key m ks
+
+/-- what the specification's literal answers for ANY entry list: the value of the LAST entry with the key -/
+theorem C09_spec_get_ofList (l : List (α × β)) (k : κ) :
+    OMap.get key (ofList key l) k = (getLast key l k).map (·.2) := by
+  rw [ofList, get_merge_last]
+  cases getLast key l k <;> simp [OMap.get, getEntry]
+
+example : OMap.includes id [(1, 10), (2, 20)] 2 = true ∧ OMap.includes id [(1, 10), (2, 20)] 3 = false ∧
+    deleteAll id [(1, 10), (2, 20), (3, 30)] [3, 1, 7] = [(2, 20)] ∧
+    merge id [(1, 10), (2, 20)] [(2, 21), (3, 30), (1, 11)] = [(1, 11), (2, 21), (3, 30)] := by decide
+
+end spec2
 
 /-! ## hash.StringHash -/
 
@@ -202,6 +245,44 @@ example : ShOK { shFacts with methods := ⟨"Keys", .none, [.other "other:escape
 example : ShOK { shFacts with methods := ⟨"Clear", .none, [.entries, .index], [], []⟩ :: shFacts.methods } = false := by decide
 
 end sh2
+
+/-! ### audit additions (StringHash): deletion removes the key; instances of the hypotheses of the implications above -/
+section sh3
+variable {β : Type} (f : ShFacts) (hok : ShOK f = true)
+include hok
+
+/-- deletion removes exactly the given key (with `C09_sh_delete_keeps_reachable`: and nothing else) -/
+theorem C09_sh_delete_removes {h : SH β} (hi : SInv h) (hf : h.frozen = false) (k : String) :
+    (stepSHT f h (.delete k)).1.get k = .none ∧ (stepSHT f h (.delete k)).1.includes k = false := by
+  rw [stepSHT_eq hok]
+  have hd := hi.delete k
+  have he : (h.delete k).1.entries = OMap.delete id h.entries k := by
+    have := congrArg (fun x => x.1.m) hd.2
+    simpa [stepSpec, SH.abs, hf] using this.symm
+  show (h.delete k).1.get k = .none ∧ (h.delete k).1.includes k = false
+  rw [hd.1.get, hd.1.includes, he]
+  simp [OMap.includes, OMap.get, getEntry_delete, optOut]
+
+end sh3
+
+/-- hypotheses of `C09_sh_delete_keeps_reachable` / `C09_sh_delete_removes` on a reachable, unfrozen hash in which the
+    deletion really shifts a position (`c`: index 2 → 1) -/
+def shThree : SH Nat := (runSHT shFacts SH.new [.put "a" 1, .put "b" 2, .put "c" 3]).2
+example : SInv shThree ∧ shThree.frozen = false ∧ "c" ≠ "a" := ⟨C09_sh_impl_inv _, by decide, by decide⟩
+example : shThree.get "c" = .val 3 ∧ GoMap.get shThree.index "c" = some 2 ∧
+    (stepSHT shFacts shThree (.delete "a")).1.get "c" = .val 3 ∧
+    GoMap.get (stepSHT shFacts shThree (.delete "a")).1.index "c" = some 1 ∧
+    (stepSHT shFacts shThree (.delete "a")).1.get "a" = .none := by decide
+/-- `C09_sh_index_iff` on it -/
+example : GoMap.get shThree.index "b" = some 1 ∧ (shThree.entries[1]?).map (·.1) = some "b" := by decide
+/-- `C09_sh_equals` / `C09_sh_equals_ext`: two reachable hashes with different insertion order are `Equals`, and the
+    theorem then gives equal lookups for EVERY key -/
+def shAB : SH Nat := (runSHT shFacts SH.new [.put "a" 1, .put "b" 2]).2
+def shBA : SH Nat := (runSHT shFacts SH.new [.put "b" 2, .put "a" 1]).2
+example : SInv shAB ∧ SInv shBA ∧ shAB.pairs ≠ shBA.pairs ∧ shAB.equals shBA = some true ∧
+    shAB.equals shThree = some false ∧ (∀ k, shAB.get k = shBA.get k) := by
+  refine ⟨C09_sh_impl_inv _, C09_sh_impl_inv _, by decide, by decide, by decide, ?_⟩
+  exact (C09_sh_equals_ext (C09_sh_impl_inv _) (C09_sh_impl_inv _)).1 (by decide)
 
 /-! ## types.Hash -/
 
@@ -345,6 +426,77 @@ example : Arr.sort (fun x y => decide (x ≤ y)) [3, 1, 3, 2] = [1, 2, 3, 3] := 
 example : AVal.flats [.leaf "1", .arr [.leaf "2", .arr [.leaf "3"], .arr []], .leaf "4"] =
     [.leaf "1", .leaf "2", .leaf "3", .leaf "4"] := by simp [AVal.flats, AVal.flat]
 
+/-! ### audit additions (Array): the specification of `unique` / `eachSlice` pinned down exactly -/
+
+/-- `unique` keeps the FIRST of every group of equal elements (`C09_arr_spec_unique` alone would also allow a later one) -/
+theorem C09_arr_spec_unique_first (a : List α) :
+    ∀ e ∈ ASpec.firsts key a, a.find? (fun x => decide (key x = key e)) = some e := by
+  have congr : ∀ (p q : α → Bool) (l : List α), (∀ x ∈ l, p x = q x) → l.find? p = l.find? q := by
+    intro p q l
+    induction l with
+    | nil => intro _; rfl
+    | cons x l ih =>
+      intro h
+      have hx := h x (by simp)
+      have := ih (fun y hy => h y (by simp [hy]))
+      simp [List.find?_cons, hx, this]
+  generalize hl : a.length = m
+  induction m using Nat.strongRecOn generalizing a with
+  | _ m ih =>
+    cases a with
+    | nil => simp [ASpec.firsts]
+    | cons v vs =>
+      rw [ASpec.firsts]
+      intro e he
+      rcases List.mem_cons.mp he with rfl | he
+      · simp
+      · have hlt : (vs.filter (fun x => !decide (key x = key v))).length < m := by
+          have := List.length_filter_le (fun x => !decide (key x = key v)) vs
+          simp only [← hl, List.length_cons]; omega
+        have hm : e ∈ vs.filter (fun x => !decide (key x = key v)) :=
+          (ASpec.firsts_spec key _).2.1.subset he
+        have hne : key e ≠ key v := by simpa using (List.mem_filter.mp hm).2
+        have := ih _ hlt _ rfl e he
+        rw [List.find?_filter] at this
+        have hv : decide (key v = key e) = false := by simpa using fun h => hne h.symm
+        rw [List.find?_cons, hv]
+        rw [← this]
+        apply congr
+        intro x _
+        by_cases hx : key x = key e
+        · simp [hx, hne]
+        · simp [hx]
+
+omit [DecidableEq κ] in
+/-- piece number `i` of `eachSlice n` is exactly the elements at positions `i*n … i*n+n-1` (every piece but the last is
+    full; `C09_arr_spec_chunks` alone would also allow `[[1],[2],[3]]` for `n = 2`) -/
+theorem C09_arr_spec_chunks_at (n : Nat) (hn : 0 < n) (a : List α) (i : Nat) :
+    (ASpec.chunks n a)[i]? = if i * n < a.length then some ((a.drop (i * n)).take n) else none := by
+  induction i generalizing a with
+  | zero =>
+    cases a with
+    | nil => simp [ASpec.chunks]
+    | cons v vs =>
+      have hn0 : n ≠ 0 := by omega
+      rw [ASpec.chunks]; simp [hn0]
+  | succ i ih =>
+    cases a with
+    | nil => simp [ASpec.chunks]
+    | cons v vs =>
+      have hn0 : n ≠ 0 := by omega
+      rw [ASpec.chunks]
+      simp only [hn0, if_false, List.getElem?_cons_succ, ih, List.length_drop, List.drop_drop]
+      have e1 : (i + 1) * n = n + i * n := by rw [Nat.add_mul]; omega
+      have e2 : i * n < (v :: vs).length - n ↔ (i + 1) * n < (v :: vs).length := by omega
+      simp only [e2, e1]
+
+example : ASpec.firsts (fun x : Nat × Nat => x.1) [(3, 0), (1, 1), (3, 2), (2, 3)] = [(3, 0), (1, 1), (2, 3)] := by
+  simp [ASpec.firsts]
+/-- the hypotheses of `C09_arr_sort` hold of the comparator of the examples -/
+example : (∀ x y : Nat, (decide (x ≤ y) || decide (y ≤ x)) = true) ∧
+    (∀ x y z : Nat, decide (x ≤ y) = true → decide (y ≤ z) = true → decide (x ≤ z) = true) :=
+  ⟨fun x y => by simp; omega, fun x y z => by simp; omega⟩
+
 end arr
 
 /-- FULL statements (every literal included) -/
@@ -394,5 +546,33 @@ example : HashOK { hashFacts with fieldWrites := ("Hash.Delete", "entries", .unk
 example : HashOK { hashFacts with entryElementWrites := ["Hash.Sort: hv.entries[i] = hv.entries[j]"] } = false := by decide
 example : HashOK { hashFacts with mergeCopiesReceiver := false } = false := by decide
 example : HashOK { hashFacts with valueIndex := .unknown "…" } = false := by decide
+
+/-! ### audit additions (Hash): instances of the hypotheses of `C09_mutable_putAll` / `C09_hash_index_iff`, and a `LitOK`
+    history through the operations `hashWitness` does not use (slice, select, reject, eachSlice, in-place Put/PutAll) -/
+def hTwo : Hash Nat Nat Nat := Hash.wrap [(1, 10), (2, 20)]
+example : HInv id hTwo ∧ (keys id [(2, 21), (3, 30)]).Nodup ∧
+    (hTwo.putAllT hashFacts id [(2, 21), (3, 30)]).map (·.entries) = some [(1, 10), (2, 21), (3, 30)] ∧
+    (hTwo.putAllT hashFacts id [(2, 21), (3, 30)]).map (·.index) = some none :=
+  ⟨HInv.wrap (by decide), by decide, by decide, by decide⟩
+example : GoMap.get (hTwo.valueIndex id).2 2 = some 1 ∧ (hTwo.entries[1]?).map (fun e => id e.1) = some 2 := by decide
+
+def hashWitness2 : List (HOp Nat Nat) :=
+  [.lit [(3, 30), (1, 10), (2, 20)], .slice 0 1 3, .view 1, .slice 0 2 5, .select 0 [1, 3], .view 2, .reject 0 [1, 3], .view 3,
+   .eachSlice 0 2, .eachSlice 0 0, .lit [], .mput 4 (7, 70), .mputAll 4 0,
+   .mput 4 (1, 11), .view 4, .get 4 7, .get 9 1]
+example : ∀ op ∈ hashWitness2, LitOK id op := by
+  intro op h
+  simp only [hashWitness2, List.mem_cons, List.mem_nil_iff, or_false] at h
+  rcases h with rfl|rfl|rfl|rfl|rfl|rfl|rfl|rfl|rfl|rfl|rfl|rfl|rfl|rfl|rfl|rfl|rfl <;> simp [LitOK, keys]
+/-- note `.badBounds`: `Slice(2, 5)` of a 3-entry hash is a Go slice-bounds panic; the model (and the specification) answer
+    `badBounds`, which `C09_hash_no_fault` does NOT count as a fault (caller error, outside the property) -/
+example : (runHImplT hashFacts id ([] : List (Hash Nat Nat Nat)) hashWitness2).1 =
+    [.made, .made, .entries [(1, 10), (2, 20)], .badBounds, .made, .entries [(3, 30), (1, 10)], .made, .entries [(2, 20)],
+     .chunks [[(3, 30), (1, 10)], [(2, 20)]], .illegal, .made, .made, .made,
+     .made, .entries [(7, 70), (3, 30), (1, 11), (2, 20)], .got (some 70), .badRef] := by
+  decide
+example : ((Hash.wrap [(3, 30), (1, 10), (2, 20)] : Hash Nat Nat Nat).sort (fun x y => decide (x ≤ y))).entries =
+    [(1, 10), (2, 20), (3, 30)] := by
+  simp [Hash.sort, Hash.wrap, List.mergeSort, List.MergeSort.Internal.splitInTwo]
 
 end Pcore.Coll
